@@ -176,11 +176,7 @@ func (n *tnode) observe() J {
 	}
 	n.last = emitted
 	res := J{"out": msgsJ(emitted), "closed": n.closed}
-	if len(emitted) < 2 {
-		res["notice"] = notices
-	} else {
-		res["notice"] = "any"
-	}
+	res["notice"] = notices
 	v, err := n.h.Result()
 	switch {
 	case err == nil:
